@@ -14,6 +14,7 @@ import (
 	"github.com/buildbarn/bb-storage/pkg/digest"
 	"google.golang.org/grpc/codes"
 	"google.golang.org/grpc/status"
+	"google.golang.org/protobuf/proto"
 	"pgregory.net/rapid"
 
 	"verif/harness/backends"
@@ -126,6 +127,15 @@ func protoOf(data []byte, fn fnSpec) *remoteexecution.Digest {
 	return &remoteexecution.Digest{Hash: hashHex(fn, data), SizeBytes: int64(len(data))}
 }
 
+func sortedKeys(m map[string]bool) []string {
+	out := make([]string, 0, len(m))
+	for k := range m {
+		out = append(out, k)
+	}
+	sort.Strings(out)
+	return out
+}
+
 func keyOfProto(d *remoteexecution.Digest) string {
 	return fmt.Sprintf("%s/%d", d.GetHash(), d.GetSizeBytes())
 }
@@ -208,43 +218,57 @@ func TestC14FindMissingBlobs(t *testing.T) {
 		vc.ClassIf(faulty, "backend_fault")
 		vc.Class("result_" + codeOf(err))
 		vc.Sample(func() string { return e.String() + " " + strings.Join(rendered, ",") + " -> " + codeOf(err) })
-		switch {
-		case n == 0:
-			if err != nil || len(resp.MissingBlobDigests) != 0 {
-				t.Fatalf("empty request: got %v, %v", resp, err)
-			}
-		case !e.instOK || !fnDeterminable || anyMalformed:
-			if err == nil {
-				t.Fatalf("FindMissingBlobs with a malformed request (%s; %v) succeeded: %v", e, rendered, resp)
-			}
-			if status.Code(err) != codes.InvalidArgument {
-				t.Fatalf("FindMissingBlobs with a malformed request (%s; %v) returned %v, want INVALID_ARGUMENT", e, rendered, err)
-			}
-		case faulty:
-			if status.Code(err) != codes.Unavailable {
-				t.Fatalf("back end failed with UNAVAILABLE, FindMissingBlobs returned %v, %v", resp, err)
-			}
-		default:
-			if err != nil {
-				t.Fatalf("FindMissingBlobs failed: %v (%s; %v)", err, e, rendered)
-			}
+		headerOK := e.instOK && e.fnOK
+		answered := func() {
 			wantSet, _ := mem.FindMissing(ctx, sb.Build())
-			var want, got []string
+			// "exactly the subset": compared as sets (order and repetition
+			// of entries in the response are not part of the property)
+			want, got := map[string]bool{}, map[string]bool{}
 			for _, d := range wantSet.Items() {
-				want = append(want, keyOfProto(d.GetProto()))
+				want[keyOfProto(d.GetProto())] = true
 			}
 			for _, d := range resp.MissingBlobDigests {
-				got = append(got, keyOfProto(d))
+				got[keyOfProto(d)] = true
 			}
-			sort.Strings(want)
-			sort.Strings(got)
-			if fmt.Sprint(want) != fmt.Sprint(got) {
-				t.Fatalf("FindMissingBlobs returned %v, the back end reports %v missing (%s; %v)", got, want, e, rendered)
+			vc.ClassIf(len(resp.MissingBlobDigests) != len(got), "response_repeats_a_digest")
+			if fmt.Sprint(sortedKeys(want)) != fmt.Sprint(sortedKeys(got)) {
+				t.Fatalf("FindMissingBlobs returned %v, the back end reports %v missing (%s; %v)", sortedKeys(got), sortedKeys(want), e, rendered)
 			}
 			if len(want) > 0 && len(want) < sb.Build().Length() {
 				vc.NonTrivial()
 			}
 			vc.Class("answered")
+		}
+		switch {
+		case n == 0:
+			// nothing asked: nothing missing; a request whose header is
+			// malformed may also be refused
+			if err == nil && len(resp.MissingBlobDigests) != 0 {
+				t.Fatalf("empty request: got %v, %v", resp, err)
+			}
+			if err != nil && headerOK {
+				t.Fatalf("empty request with a well-formed header failed: %v (%s)", err, e)
+			}
+		case !e.instOK || !fnDeterminable || anyMalformed:
+			// any error will do (the property names no code)
+			if err == nil {
+				t.Fatalf("FindMissingBlobs with a malformed request (%s; %v) succeeded: %v", e, rendered, resp)
+			}
+			vc.ClassIf(status.Code(err) != codes.InvalidArgument, "malformed_request_not_INVALID_ARGUMENT")
+		case faulty:
+			// the back end failed its first call: the RPC fails, or (after a
+			// repeated call) answers exactly what the back end reports
+			if err == nil {
+				answered()
+				vc.Class("answered_after_backend_fault")
+			} else {
+				vc.ClassIf(status.Code(err) != codes.Unavailable, "backend_fault_recoded")
+			}
+		default:
+			if err != nil {
+				t.Fatalf("FindMissingBlobs failed: %v (%s; %v)", err, e, rendered)
+			}
+			answered()
 		}
 		vc.End()
 	})
@@ -258,6 +282,11 @@ type updEntry struct {
 	digest *remoteexecution.Digest
 	data   []byte
 	good   bool
+	// either: the entry carries the object's bytes Zstandard-compressed and
+	// says so (compressor field). A server without compressed batch uploads
+	// refuses it, one that implements them stores the object; both keep
+	// "never stores data that does not match its digest".
+	either bool
 }
 
 // TestC14BatchUpdateBlobs: per-entry status; data that does not match
@@ -278,9 +307,6 @@ func TestC14BatchUpdateBlobs(t *testing.T) {
 				pre[i] = true
 			}
 		}
-		maxMsg := rapid.SampledFrom([]int64{1, 16, 100, 1 << 20}).Draw(t, "max_message_size")
-		srv := grpcservers.NewContentAddressableStorageServer(mem, maxMsg)
-
 		n := rapid.IntRange(0, 7).Draw(t, "n")
 		if n == 0 && rapid.IntRange(0, 3).Draw(t, "n_really_zero") != 0 {
 			n = rapid.IntRange(2, 6).Draw(t, "n_again")
@@ -315,7 +341,7 @@ func TestC14BatchUpdateBlobs(t *testing.T) {
 			case 9:
 				// compressed payload under the identity digest: the server does
 				// not implement compressed batch entries, so this is wrong data
-				en.kind, en.data = "zstd_payload", zEncode(0, data)
+				en.kind, en.data, en.either = "zstd_payload", zEncode(0, data), true
 			default:
 				k := pickMalformation(t, e, i)
 				en.kind, en.data = "bad_digest:"+k, data
@@ -333,6 +359,17 @@ func TestC14BatchUpdateBlobs(t *testing.T) {
 			req.Requests = append(req.Requests, r)
 			rendered = append(rendered, fmt.Sprintf("#%d:%s", en.idx, en.kind))
 		}
+		// The server's message size limit is the transport's: a request
+		// larger than it never reaches the handler. So the limit is at
+		// least the size of this request (exactly, slightly above, or far).
+		maxMsg := int64(1 << 20)
+		switch rapid.IntRange(0, 3).Draw(t, "max_message_size") {
+		case 0:
+			maxMsg = int64(proto.Size(req))
+		case 1:
+			maxMsg = int64(proto.Size(req)) + int64(rapid.IntRange(1, 64).Draw(t, "max_message_slack"))
+		}
+		srv := grpcservers.NewContentAddressableStorageServer(mem, maxMsg)
 		vc.Add(e.String(), int(kf), strings.Join(rendered, ","), fmt.Sprint(pre), maxMsg)
 		beforeKeys := mem.Keys()
 
@@ -382,18 +419,36 @@ func TestC14BatchUpdateBlobs(t *testing.T) {
 			vc.Class("entry_" + strings.SplitN(en.kind, ":", 2)[0])
 		}
 		vc.Sample(func() string { return e.String() + " " + strings.Join(rendered, ",") + " -> " + codeOf(err) })
+		anyBadDigest := false
+		for _, en := range entries {
+			anyBadDigest = anyBadDigest || strings.HasPrefix(en.kind, "bad_digest")
+		}
 		switch {
 		case n == 0:
-			if err != nil || len(resp.Responses) != 0 {
+			if err == nil && len(resp.Responses) != 0 {
 				t.Fatalf("empty request: got %v, %v", resp, err)
 			}
+			if err != nil && e.instOK && e.fnOK {
+				t.Fatalf("empty request with a well-formed header failed: %v (%s)", err, e)
+			}
 		case !e.instOK || !fnDeterminable:
+			// refused as a whole or entry by entry; nothing may be stored
 			if err == nil {
-				t.Fatalf("BatchUpdateBlobs with a malformed request header (%s; first digest %v) succeeded: %v", e, req.Requests[0].Digest, resp)
+				for i, r := range resp.Responses {
+					if codes.Code(r.Status.GetCode()) == codes.OK {
+						t.Fatalf("BatchUpdateBlobs with a malformed request header (%s; first digest %v) reported OK for entry %d: %v", e, req.Requests[0].Digest, i, resp)
+					}
+				}
+				vc.Class("malformed_header_refused_per_entry")
 			}
 			if len(afterKeys) != len(beforeKeys) {
 				t.Fatalf("BatchUpdateBlobs with a malformed request header stored objects (%s)", e)
 			}
+		case err != nil && anyBadDigest:
+			// A malformed digest message may also fail the request as a
+			// whole (BatchReadBlobs does): what was or was not stored is
+			// judged by the unconditional clauses above.
+			vc.Class("whole_call_refused_for_malformed_digest")
 		default:
 			if err != nil {
 				t.Fatalf("BatchUpdateBlobs failed as a whole with %v; a per-entry status was expected (%s; %v)", err, e, rendered)
@@ -401,32 +456,73 @@ func TestC14BatchUpdateBlobs(t *testing.T) {
 			if len(resp.Responses) != n {
 				t.Fatalf("BatchUpdateBlobs returned %d statuses for %d entries (%s; %v)", len(resp.Responses), n, e, rendered)
 			}
-			for i, en := range entries {
-				r := resp.Responses[i]
-				if keyOfProto(r.Digest) != keyOfProto(en.digest) {
-					t.Fatalf("status %d is for digest %v, entry %d has %v (%s; %v)", i, r.Digest, i, en.digest, e, rendered)
+			// Per-object status, matched by digest (the order of the
+			// statuses is not part of the property): for every digest the
+			// number of OK statuses lies between the number of correct
+			// entries and correct + compressed-payload entries.
+			type tally struct{ good, either, total, ok, answers int }
+			tallies := map[string]*tally{}
+			get := func(d *remoteexecution.Digest) *tally {
+				k := keyOfProto(d) // a nil digest and an empty one render alike
+				if tallies[k] == nil {
+					tallies[k] = &tally{}
 				}
-				code := codes.Code(r.Status.GetCode())
+				return tallies[k]
+			}
+			inOrder := true
+			for i, en := range entries {
+				tl := get(en.digest)
+				tl.total++
 				if en.good {
-					if code != codes.OK {
-						t.Fatalf("entry %d (%s) is correct but got status %v (%s; %v)", i, en.kind, r.Status, e, rendered)
-					}
+					tl.good++
+				}
+				if en.either {
+					tl.either++
+				}
+				r := resp.Responses[i]
+				inOrder = inOrder && keyOfProto(r.Digest) == keyOfProto(en.digest)
+				ta := get(r.Digest)
+				ta.answers++
+				if codes.Code(r.Status.GetCode()) == codes.OK {
+					ta.ok++
+				}
+			}
+			vc.ClassIf(!inOrder, "statuses_not_in_request_order")
+			for k, tl := range tallies {
+				if tl.answers != tl.total {
+					t.Fatalf("digest %s occurs in %d entries but in %d statuses (%s; %v; %v)", k, tl.total, tl.answers, e, rendered, resp)
+				}
+				if tl.ok < tl.good {
+					t.Fatalf("digest %s: %d entries carry the correct data but only %d statuses are OK (%s; %v; %v)", k, tl.good, tl.ok, e, rendered, resp)
+				}
+				if tl.ok > tl.good+tl.either {
+					t.Fatalf("digest %s: %d statuses are OK but only %d entries carry data matching the digest (%s; %v; %v)", k, tl.ok, tl.good+tl.either, e, rendered, resp)
+				}
+			}
+			for i, en := range entries {
+				if en.good {
 					if b, ok := mem.Peek(e.digestOf(pool[en.idx])); !ok || !bytes.Equal(b, pool[en.idx]) {
-						t.Fatalf("entry %d (%s) got status OK but the object is not in the back end (%s; %v)", i, en.kind, e, rendered)
+						t.Fatalf("entry %d (%s) is correct but the object is not in the back end (%s; %v)", i, en.kind, e, rendered)
 					}
-				} else if code != codes.InvalidArgument {
-					t.Fatalf("entry %d (%s) does not match its digest but got status %v, want INVALID_ARGUMENT (%s; %v)", i, en.kind, r.Status, e, rendered)
 				}
 			}
 			// stored <=> some correct entry (or there before)
 			for i, data := range pool {
-				anyGood := false
+				anyGood, anyEither := false, false
 				for _, en := range entries {
 					if en.idx == i && en.good {
 						anyGood = true
 					}
+					if en.idx == i && en.either {
+						anyEither = true
+					}
 				}
-				if has := mem.Has(e.digestOf(data)); has != (anyGood || pre[i]) {
+				has := mem.Has(e.digestOf(data))
+				if anyEither && !anyGood && !pre[i] {
+					vc.ClassIf(has, "compressed_batch_entry_stored")
+					continue
+				}
+				if has != (anyGood || pre[i]) {
 					t.Fatalf("object #%d: in back end = %v, but correct entry = %v, pre-existing = %v (%s; %v)", i, has, anyGood, pre[i], e, rendered)
 				}
 			}
@@ -440,6 +536,23 @@ func TestC14BatchUpdateBlobs(t *testing.T) {
 }
 
 var recBR = vstats.New("TestC14BatchReadBlobs")
+
+// brData returns the object bytes a BatchReadBlobs entry delivers: the data
+// field, decompressed when the entry says it is Zstandard-compressed and
+// the request allowed that.
+func brData(req *remoteexecution.BatchReadBlobsRequest, r *remoteexecution.BatchReadBlobsResponse_Response) ([]byte, error) {
+	if r.Compressor == remoteexecution.Compressor_IDENTITY {
+		return r.Data, nil
+	}
+	allowed := false
+	for _, c := range req.AcceptableCompressors {
+		allowed = allowed || c == r.Compressor
+	}
+	if !allowed || r.Compressor != remoteexecution.Compressor_ZSTD {
+		return nil, fmt.Errorf("entry uses compressor %s, which the request did not allow", r.Compressor)
+	}
+	return zDecode(r.Data)
+}
 
 // TestC14BatchReadBlobs: per-entry status; never delivers data that does
 // not match its digest; the size limit is honoured.
@@ -529,31 +642,70 @@ func TestC14BatchReadBlobs(t *testing.T) {
 
 		// Unconditional: whatever is delivered with status OK matches its
 		// digest; an entry with an error carries no data.
+		delivered := int64(0)
 		if err == nil {
 			for i, r := range resp.Responses {
 				code := codes.Code(r.Status.GetCode())
 				if code == codes.OK {
-					if int64(len(r.Data)) != r.Digest.GetSizeBytes() || hashHex(e.fn, r.Data) != r.Digest.GetHash() {
-						t.Fatalf("BatchReadBlobs entry %d delivered %s with status OK for digest %v (%s; %v)", i, short(r.Data), r.Digest, e, rendered)
+					data, derr := brData(req, r)
+					if derr != nil || int64(len(data)) != r.Digest.GetSizeBytes() || hashHex(e.fn, data) != r.Digest.GetHash() {
+						t.Fatalf("BatchReadBlobs entry %d delivered %s (compressor %s, %v) with status OK for digest %v (%s; %v)", i, short(r.Data), r.Compressor, derr, r.Digest, e, rendered)
 					}
+					delivered += int64(len(r.Data))
 				} else if len(r.Data) != 0 {
 					t.Fatalf("BatchReadBlobs entry %d has status %v and nevertheless carries data %s (%s; %v)", i, r.Status, short(r.Data), e, rendered)
 				}
 			}
 		}
+		countOK := func() int {
+			k := 0
+			for _, r := range resp.GetResponses() {
+				if codes.Code(r.Status.GetCode()) == codes.OK {
+					k++
+				}
+			}
+			return k
+		}
 		switch {
 		case n == 0:
-			if err != nil || len(resp.Responses) != 0 {
+			if err == nil && len(resp.Responses) != 0 {
 				t.Fatalf("empty request: got %v, %v", resp, err)
 			}
-		case !e.instOK || !fnDeterminable || anyMalformed:
-			if status.Code(err) != codes.InvalidArgument {
-				t.Fatalf("BatchReadBlobs with a malformed request (%s; %v) returned %v, %v; want INVALID_ARGUMENT", e, rendered, resp, err)
+			if err != nil && e.instOK && e.fnOK {
+				t.Fatalf("empty request with a well-formed header failed: %v (%s)", err, e)
 			}
+		case !e.instOK || !fnDeterminable:
+			// refused as a whole (any code) or entry by entry
+			if err == nil && countOK() != 0 {
+				t.Fatalf("BatchReadBlobs with a malformed request header (%s; %v) delivered objects: %v", e, rendered, resp)
+			}
+			vc.ClassIf(status.Code(err) != codes.InvalidArgument, "malformed_request_not_INVALID_ARGUMENT")
+		case anyMalformed:
+			// refused as a whole (any code), or the malformed entries are
+			// refused one by one: then no more objects are delivered than
+			// well-formed entries ask for (what is delivered matches its
+			// digest by the unconditional clause)
+			wellFormed := 0
+			for _, idx := range which {
+				if idx >= 0 && state[idx] == "present" {
+					wellFormed++
+				}
+			}
+			if err == nil && countOK() > wellFormed {
+				t.Fatalf("BatchReadBlobs with malformed digests (%s; %v) delivered %d objects, only %d well-formed entries name a present object: %v", e, rendered, countOK(), wellFormed, resp)
+			}
+			vc.ClassIf(status.Code(err) != codes.InvalidArgument, "malformed_request_not_INVALID_ARGUMENT")
 		case total > maxMsg:
-			if status.Code(err) != codes.InvalidArgument {
-				t.Fatalf("BatchReadBlobs of %d bytes in total with a limit of %d returned %v, want INVALID_ARGUMENT (%s; %v)", total, maxMsg, err, e, rendered)
+			// the limit must hold: the call fails (any code) or delivers
+			// no more than the limit
+			if err == nil && delivered > maxMsg {
+				t.Fatalf("BatchReadBlobs delivered %d bytes with a limit of %d (%s; %v)", delivered, maxMsg, e, rendered)
 			}
+			vc.ClassIf(status.Code(err) != codes.InvalidArgument, "over_limit_not_INVALID_ARGUMENT")
+		case err != nil && total+int64(n)*256 > maxMsg:
+			// Within the framing overhead of the limit: whether digests and
+			// statuses count towards it is not fixed by the property.
+			vc.Class("refused_close_to_the_limit")
 		default:
 			if err != nil {
 				t.Fatalf("BatchReadBlobs of %d bytes in total (limit %d) failed with %v (%s; %v)", total, maxMsg, err, e, rendered)
@@ -561,17 +713,33 @@ func TestC14BatchReadBlobs(t *testing.T) {
 			if len(resp.Responses) != n {
 				t.Fatalf("BatchReadBlobs returned %d entries for %d digests", len(resp.Responses), n)
 			}
+			// matched by digest: every requested digest is answered as
+			// often as it was asked (order is not part of the property);
+			// the state of an object is a function of its digest
+			asked, answeredN := map[string]int{}, map[string]int{}
+			idxOf := map[string]int{}
+			inOrder := true
+			for i, idx := range which {
+				k := keyOfProto(req.Digests[i])
+				asked[k]++
+				idxOf[k] = idx
+				inOrder = inOrder && keyOfProto(resp.Responses[i].Digest) == k
+			}
+			vc.ClassIf(!inOrder, "entries_not_in_request_order")
 			kinds := map[string]bool{}
 			for i, r := range resp.Responses {
-				idx := which[i]
-				if keyOfProto(r.Digest) != keyOfProto(req.Digests[i]) {
-					t.Fatalf("entry %d answers digest %v, requested %v", i, r.Digest, req.Digests[i])
+				k := keyOfProto(r.Digest)
+				answeredN[k]++
+				idx, known := idxOf[k]
+				if !known || answeredN[k] > asked[k] {
+					t.Fatalf("entry %d answers digest %v, which was requested %d times (%s; %v)", i, r.Digest, asked[k], e, rendered)
 				}
 				code := codes.Code(r.Status.GetCode())
 				kinds[state[idx]] = true
 				switch state[idx] {
 				case "present":
-					if code != codes.OK || !bytes.Equal(r.Data, pool[idx]) {
+					data, derr := brData(req, r)
+					if code != codes.OK || derr != nil || !bytes.Equal(data, pool[idx]) {
 						t.Fatalf("entry %d (#%d, present): status %v data %s, want OK and %s (%s; %v)", i, idx, r.Status, short(r.Data), short(pool[idx]), e, rendered)
 					}
 				case "absent":
@@ -579,9 +747,12 @@ func TestC14BatchReadBlobs(t *testing.T) {
 						t.Fatalf("entry %d (#%d, absent): status %v, want NOT_FOUND (%s; %v)", i, idx, r.Status, e, rendered)
 					}
 				default:
-					if code == codes.OK || code == codes.NotFound {
-						t.Fatalf("entry %d (#%d, stored bytes do not match the digest): status %v, want a data-integrity error (%s; %v)", i, idx, r.Status, e, rendered)
+					// stored bytes do not match the digest: never delivered;
+					// which error code says so is not fixed
+					if code == codes.OK {
+						t.Fatalf("entry %d (#%d, stored bytes do not match the digest): status %v, want an error (%s; %v)", i, idx, r.Status, e, rendered)
 					}
+					vc.ClassIf(code == codes.NotFound, "corrupt_object_reported_NOT_FOUND")
 				}
 			}
 			if len(kinds) >= 2 {
